@@ -10,7 +10,7 @@ Extraction Language OCaml.
 Extraction "model.ml"
   s2l tokenize str_to_partial_tokens tokens_to_operator_tree build_operator_tree
   f_of_bits bits_of_f parse_float
-  run_script step run_entry_gen initial_ctx apply_libfn
+  run_script step run_entry_gen run_node_entry_gen initial_ctx apply_libfn
   value_fmt value_debug node_fmt error_fmt set_value set_function eval_mut eval_ro empty_hashmap
   as_string as_int as_float as_number as_boolean as_tuple as_fixed_len_tuple as_ranged_len_tuple as_empty str_from type_of value_eqb
   is_string is_int is_float is_number is_boolean is_tuple is_empty try_from_string try_from_bool try_from_tuple try_from_unit
